@@ -30,6 +30,15 @@ type c05WithU struct {
 	U c05U  `json:"x"`
 }
 
+type c05TextU struct{ s string }
+
+func (u *c05TextU) UnmarshalText(b []byte) error { u.s = string(b); return nil }
+
+type c05WithText struct {
+	A int      `json:"A"`
+	T c05TextU `json:"x"`
+}
+
 // verdict of one entry point: 'A' accept, 'R' reject, 'P' panic
 func verdict(f func() error) byte {
 	err := safeCall(f)
@@ -102,6 +111,8 @@ func c05Typed(o *Out, b []byte) {
 		{"array1", func() interface{} { return &[1]int{} }},
 		{"slice-of-skip", func() interface{} { return &[]c05Skip{} }},
 		{"map-of-skip", func() interface{} { return &map[string]c05Skip{} }},
+		{"text", func() interface{} { return &c05WithText{} }},
+		{"text-in-iface", func() interface{} { var i interface{} = &c05TextU{}; return &i }},
 	}
 	for _, d := range dests {
 		for mode := 0; mode < 3; mode++ {
@@ -194,6 +205,8 @@ func classifyC05(b []byte, dest string, mode int) string {
 			mk = func() interface{} { return &[]c05Skip{} }
 		case "map-of-skip":
 			mk = func() interface{} { return &map[string]c05Skip{} }
+		case "text":
+			mk = func() interface{} { return &c05WithText{} }
 		}
 		if mk != nil && verdict(func() error { return gojson.Unmarshal(b, mk()) }) == 'R' {
 			return "StreamStructKeyLenient"
